@@ -155,32 +155,53 @@ def r30_cli_flow(ctx):
               P + ("C15",))
     # positional wiring of the dispatch calls
     wiring = {
-        "diff_time_point_strs": ["args.items[0]", "args.items[1]",
-                                 "args.offsets1", "args.offsets2",
-                                 "args.print_format",
-                                 "args.duration_print_format"],
-        "iter_recurrence_str": ["args.items[0]", "args.print_format"],
-        "format_duration_str": ["args.items[0]",
-                                "args.duration_print_format"],
-        "process_time_point_str": ["time_point_str", "args.offsets1",
-                                   "args.print_format"]}
+        "diff_time_point_strs": ["item:0", "item:1",
+                                 "opt:offsets1", "opt:offsets2",
+                                 "opt:print_format",
+                                 "opt:duration_print_format"],
+        "iter_recurrence_str": ["item:0", "opt:print_format"],
+        "format_duration_str": ["item:0",
+                                "opt:duration_print_format"],
+        "process_time_point_str": ["item:0", "opt:offsets1",
+                                   "opt:print_format"]}
+    from ..flow import expand_values as _ev
+
+    def _is_items(e, depth=0):
+        """the positional items (as parsed, or re-read from stdin)"""
+        if U(e) == argsv + ".items":
+            return True
+        if isinstance(e, ast.Call) and U(e.func) in ("list", "tuple") and \
+                e.args:
+            return _is_items(e.args[0], depth)
+        if isinstance(e, ast.Name) and depth < 3:
+            lv = _ev(main.node, e, ())
+            return bool(lv) and not (len(lv) == 1 and lv[0][0] is e) and all(
+                _is_items(v, depth + 1) or "stdin" in U(v) for v, _ in lv)
+        return False
+
+    def _origin(e):
+        """where an argument comes from: opt:<dest> / item:<i> (None, the
+        absent first item, is left out)"""
+        out = set()
+        for v, _c in _ev(main.node, e, ()):
+            if isinstance(v, ast.Constant) and v.value is None:
+                continue
+            if isinstance(v, ast.Attribute) and U(v.value) == argsv:
+                out.add("opt:" + v.attr)
+            elif isinstance(v, ast.Subscript) and isinstance(
+                    v.slice, ast.Constant) and isinstance(
+                        v.slice.value, int) and _is_items(v.value):
+                out.add("item:%d" % v.slice.value)
+            else:
+                out.add("?" + U(v)[:40])
+        return "|".join(sorted(out))
     for c in calls:
         f = oper.methods.get(c.func.attr)
         if f is None:
             continue
         params = f.call_params
-        bound = {}
-        for i, a in enumerate(c.args):
-            if i < len(params):
-                bound[params[i]] = U(a).replace(argsv + ".", "args.")
-        for k in c.keywords:
-            bound[k.arg] = U(k.value).replace(argsv + ".", "args.")
-        tps = [U(n.targets[0]) for n in walk_no_nested(main.node)
-               if isinstance(n, ast.Assign) and U(n.value) ==
-               argsv + ".items[0]"]
-        for k_, v_ in list(bound.items()):
-            if v_ in tps:
-                bound[k_] = "time_point_str"
+        bound = {k_: _origin(v_)
+                 for k_, v_ in ctx.bound_args(main, c).items()}
         exp = dict(zip(params, wiring[c.func.attr]))
         rep.check(bound == exp, rule,
                   ctx.fkey(main, None, "wiring:" + c.func.attr), main.loc(c),
